@@ -139,12 +139,14 @@ DEPS = {
     "C10": [("C18", {"C18-R3"}, "the reader consumes one input_event record per read() and returns every key record it reads")],
     "C12": [("C06", None, "release_all returns the mapper to rest")] + C01_ALL + C19_ALL + STEP_TABLE + [("C10", {"C10-R1", "C10-R7", "C10-R8"}, "the Driver adapters hand every readiness event and every record through"),
             ("C18", {"C18-R3"}, "the reader drops auto-repeat records and returns every press/release record")],
-    "C14": [("C13", {"C13-S1", "C13-S2", "C13-S3", "C13-S5", "C13-S7", "C13-S8", "C13-S10"},
+    "C14": [("C13", {"C13-S12"}, "every layout the loader accepts has gone through parse_layout_from_json and convert (the checks that reject what the mapper would panic on live there)"),
+            ("C13", {"C13-S1", "C13-S2", "C13-S3", "C13-S5", "C13-S7", "C13-S8", "C13-S10"},
              "alias-combination indices, definition counts >= 1 and from_table indices are in range by construction (the reasons of the reviewed ledger entries)"),
             ("C01", {"C01-R4", "C01-R6"}, "remove_mapping is only called with the index of a complete count-down sweep over active_mappings and removes exactly that one entry")],
-    "C11": CONVERTER_REPEAT,
+    "C11": CONVERTER_REPEAT + [("C12", {"C12-R2"}, "a tablet-mode event (On or Off) stops the repeat timer: the mapper is reset there, so nothing would ever cancel the repeat")],
     "C19": [("C10", {"C10-R3"}, "the loop writes every non-empty step result exactly once, in order"),
-            ("C12", {"C12-R1"}, "the mapper is stepped only while its output is being written (not in tablet mode)")],
+            ("C12", {"C12-R1", "C12-R2"}, "the mapper is stepped only while its output is being written (not in tablet mode), and the release_all batch of a tablet event is written exactly once "
+                                          "(a batch the mapper has accounted for but the device never saw makes every later event redundant)")],
 }
 
 
